@@ -125,6 +125,8 @@ func TestC01(t *testing.T) {
 	defer vlib.CleanupScratch()
 	vlib.EnableFaultLog()
 	h.Require("accepted", "rejected", "include-depth>=1", "macro-cycle")
+	// failing inputs of the native fuzz arm (thorough tier, driver-run) replay through this campaign
+	vlib.Enum(h, "native-fuzz", false, func(func(string) bool) {}, c01Single)
 
 	runRegression(h, c01Regression)
 	vlib.Enum(h, "hostile-constants", false, func(yield func(string) bool) {
